@@ -26,15 +26,23 @@ fn parse_decimal_exactly(s: &str) -> Option<Ratio<BigInt>> {
     if let Some(dot_pos) = base_str.find('.') {
         let integer_part = &base_str[..dot_pos];
         let fractional_part = &base_str[dot_pos + 1..];
-        // reject "." (but "1." and ".1" are both fine)
-        if integer_part.is_empty() && fractional_part.is_empty() {
-            return None;
-        }
         // reject e.g. "1.-1"
         if !fractional_part.chars().all(|c| c.is_ascii_digit()) {
             return None;
         }
 
+        // the sign applies to the fractional digits too
+        let (negative, integer_part) = match integer_part.strip_prefix('-') {
+            Some(rest) => (true, rest),
+            None => (false, integer_part.strip_prefix('+').unwrap_or(integer_part)),
+        };
+        if !integer_part.chars().all(|c| c.is_ascii_digit()) {
+            return None;
+        }
+        // reject "." (but "1." and ".1" are both fine)
+        if integer_part.is_empty() && fractional_part.is_empty() {
+            return None;
+        }
         let integer_digits: BigInt = if integer_part.is_empty() {
             BigInt::from(0)
         } else {
@@ -49,6 +57,7 @@ fn parse_decimal_exactly(s: &str) -> Option<Ratio<BigInt>> {
         let decimal_places = fractional_part.len();
         let base_value =
             integer_digits * BigInt::from(10).pow(decimal_places as u32) + fractional_digits;
+        let base_value = if negative { -base_value } else { base_value };
 
         Some(apply_exp10(base_value, exponent - (decimal_places as i32)))
     } else {
